@@ -258,13 +258,25 @@ func genText(r *tape.Rand, in inside) string {
 		n = 1
 	}
 	for i := 0; i < n; i++ {
-		if i > 0 {
+		// forms are separated by white space - except that a list needs none
+		// on either side: foo(bar)"s"(x)12 (seeded change C02-i2)
+		var fb strings.Builder
+		sub := inside{}
+		genForm(r, 3, &fb, sub)
+		f := fb.String()
+		glued := i > 0 && r.Pct(20) && (strings.HasSuffix(b.String(), ")") || f[0] == '(')
+		if i > 0 && !glued {
 			b.WriteString(seps[r.Intn(len(seps))])
 		}
-		if r.Pct(8) {
+		if !glued && r.Pct(8) {
 			b.WriteString(pickComment(r))
 		}
-		genForm(r, 3, &b, in)
+		if in != nil {
+			for p := range sub {
+				in[b.Len()+p] = true
+			}
+		}
+		b.WriteString(f)
 	}
 	if r.Pct(30) {
 		b.WriteString(seps[r.Intn(len(seps))])
